@@ -62,6 +62,8 @@ func validateDigits(code, check cbc.Code) error {
 	return nil
 }
 
+// mod11 provides the check digit of the "elfproef" (11-test) for the number,
+// or -1 when the remainder is 10, for which no check digit exists.
 func mod11(num int64) int64 {
 	var sum int64
 	for i := 0; i < 8; i++ {
@@ -71,7 +73,7 @@ func mod11(num int64) int64 {
 	}
 	sum = sum % 11
 	if sum > 9 {
-		sum = 0
+		return -1
 	}
 	return sum
 }
